@@ -153,6 +153,9 @@ pub fn dispatch(cmd: &str, args: &[String]) -> i32 {
         "overrun" => overrun(args),
         "tables" => tables(args),
         "eval" => eval_cmd(args),
+        "game-history" => game_history(args),
+        "position-cmd" => position_cmd(args),
+        "to-algebraic" => to_algebraic_all(args),
         _ => { eprintln!("unknown command {}", cmd); 2 }
     }
 }
@@ -590,5 +593,155 @@ fn eval_cmd(args: &[String]) -> i32 {
         rep.evals += 1;
         if got != want { rep.violation = Some(format!("{{\"input\": {{\"evaluated_before\": {}, \"fen\": {}}}, \"real\": {}, \"expected\": {}}}", jstr(a), jstr(b), got, want)); return rep.finish(); }
     }
+    rep.finish()
+}
+
+// ------------------------------------------------------------------------------------------------ C09 / C04
+/// pseudo-random legal games from the corpus starts; knights shuffling back and forth produce real repetitions
+fn random_games(seed: u64, games: usize, plies: usize) -> Vec<(RPos, Vec<RMove>)> {
+    let mut out = Vec::new();
+    let mut x = seed.wrapping_mul(0x9E3779B97F4A7C15) | 1;
+    let mut next = move || { x ^= x << 13; x ^= x >> 7; x ^= x << 17; x };
+    let starts: Vec<RPos> = SPECIAL_FENS.iter().filter_map(|f| parse_fen(f)).collect();
+    for g in 0..games {
+        let start = starts[g % starts.len()].clone();
+        let mut p = start.clone();
+        let mut ms = Vec::new();
+        let mut hist: Vec<RMove> = Vec::new();
+        for ply in 0..plies {
+            let lm = legal_moves(&p);
+            if lm.is_empty() { break; }
+            // every third game: shuffle pieces back and forth (undo the move made two plies ago when possible)
+            let mut pick = lm[(next() % lm.len() as u64) as usize];
+            if g % 3 == 0 && ply >= 2 {
+                let back = hist[ply - 2];
+                if let Some(m) = lm.iter().find(|m| m.from == back.to && m.to == back.from && m.promo.is_none()) { if next() % 4 != 0 { pick = *m; } }
+            }
+            hist.push(pick);
+            ms.push(pick);
+            p = apply(&p, pick);
+        }
+        out.push((start, ms));
+    }
+    out
+}
+
+/// C09: after `position ... moves ...` the searcher's game history holds exactly the positions before the current one;
+/// with the current one on top (as search_position pushes it) a successor counts as a repetition draw iff it occurred at
+/// least twice in the game so far; a second position command forgets the first history.
+fn game_history(args: &[String]) -> i32 {
+    let seed = seed_arg(args);
+    let games = num_arg(args, "games", 60);
+    let plies = num_arg(args, "plies", 24);
+    let mut rep = Report::new("game-history", &format!("{} pseudo-random legal games of <= {} plies (seed {}), every prefix, every successor of the final position", games, plies, seed));
+    let mut fl = Flounder::new();
+    for (start, ms) in random_games(seed, games, plies) {
+        let fen = to_fen(&start);
+        for n in [ms.len(), ms.len() / 2] {
+            let list: Vec<String> = ms[..n].iter().map(|m| m.uci()).collect();
+            // an unrelated earlier command must not leak into the history
+            fl.verif_handle_command("position startpos moves g1f3 g8f6 f3g1 f6g8");
+            let cmd = if list.is_empty() { format!("position fen {}", fen) } else { format!("position fen {} moves {}", fen, list.join(" ")) };
+            fl.verif_handle_command(&cmd);
+            rep.evals += 1;
+            let mut seen: Vec<String> = Vec::new();
+            let mut p = start.clone();
+            for m in &ms[..n] { seen.push(ref_pos_string(&p)); p = apply(&p, *m); }
+            let len = fl.verif_searcher().verif_repetition_len();
+            if len != n {
+                rep.violation = Some(format!("{{\"input\": {{\"cmd\": {}}}, \"real\": {{\"game_history_len\": {}}}, \"expected\": {{\"game_history_len\": {}}}}}", jstr(&cmd), len, n));
+                return rep.finish();
+            }
+            let cur = fl.verif_board().clone();
+            seen.push(ref_pos_string(&p));
+            fl.verif_searcher().verif_push_position(&cur);
+            for m in legal_moves(&p) {
+                let succ = apply(&p, m);
+                let occ = seen.iter().filter(|s| **s == ref_pos_string(&succ)).count();
+                let sb = eng_board(&succ);
+                let d = fl.verif_searcher().verif_is_repetition_draw(&sb);
+                rep.evals += 1;
+                if d != (occ >= 2) {
+                    rep.violation = Some(format!("{{\"input\": {{\"cmd\": {}, \"successor_move\": {}}}, \"real\": {{\"scored_as_repetition_draw\": {}}}, \"expected\": {{\"earlier_occurrences\": {}, \"draw\": {}}}}}", jstr(&cmd), jstr(&m.uci()), d, occ, occ >= 2));
+                    return rep.finish();
+                }
+            }
+        }
+        rep.distinct += 1;
+        if rep.distinct % 20 == 1 { rep.sample(jstr(&fen)); }
+    }
+    rep.finish()
+}
+
+/// C04: `position [startpos | fen F] [moves ...]` leaves the engine in exactly the position the rules prescribe
+fn position_cmd(args: &[String]) -> i32 {
+    let seed = seed_arg(args);
+    let games = num_arg(args, "games", 80);
+    let plies = num_arg(args, "plies", 30);
+    let mut rep = Report::new("position-cmd", &format!("{} pseudo-random legal games of <= {} plies (seed {}) from {} start FENs incl. large counters, + startpos games", games, plies, seed, SPECIAL_FENS.len()));
+    let mut fl = Flounder::new();
+    for (gi, (start, ms)) in random_games(seed, games, plies).into_iter().enumerate() {
+        let mut fen = to_fen(&start);
+        // counters a real game can reach (fullmove beyond 255 included)
+        let counters = [(0u32, 1u32), (99, 300), (12, 255), (3, 256), (49, 5949)][gi % 5];
+        let parts: Vec<&str> = fen.split(' ').collect();
+        fen = format!("{} {} {} {} {} {}", parts[0], parts[1], parts[2], parts[3], counters.0, counters.1);
+        let list: Vec<String> = ms.iter().map(|m| m.uci()).collect();
+        let cmd = if list.is_empty() { format!("position fen {}", fen) } else { format!("position fen {} moves {}", fen, list.join(" ")) };
+        fl.verif_handle_command(&cmd);
+        rep.evals += 1;
+        let mut p = start.clone();
+        for m in &ms { p = apply(&p, *m); }
+        let got = eng_pos_string(fl.verif_board());
+        if got != ref_pos_string(&p) {
+            rep.violation = Some(format!("{{\"input\": {{\"cmd\": {}}}, \"real\": {}, \"expected\": {}}}", jstr(&cmd), jstr(&got), jstr(&ref_pos_string(&p))));
+            return rep.finish();
+        }
+        rep.distinct += 1;
+        if rep.distinct % 25 == 1 { rep.sample(jstr(&cmd)); }
+    }
+    // startpos
+    let sp = parse_fen(SPECIAL_FENS[0]).unwrap();
+    let mut x = seed | 1;
+    for _ in 0..20 {
+        let mut p = sp.clone();
+        let mut list = Vec::new();
+        for _ in 0..40 {
+            let lm = legal_moves(&p);
+            if lm.is_empty() { break; }
+            x ^= x << 13; x ^= x >> 7; x ^= x << 17;
+            let m = lm[(x % lm.len() as u64) as usize];
+            list.push(m.uci());
+            p = apply(&p, m);
+        }
+        let cmd = format!("position startpos moves {}", list.join(" "));
+        fl.verif_handle_command(&cmd);
+        rep.evals += 1;
+        let got = eng_pos_string(fl.verif_board());
+        if got != ref_pos_string(&p) {
+            rep.violation = Some(format!("{{\"input\": {{\"cmd\": {}}}, \"real\": {}, \"expected\": {}}}", jstr(&cmd), jstr(&got), jstr(&ref_pos_string(&p))));
+            return rep.finish();
+        }
+    }
+    rep.finish()
+}
+
+/// enum-complete validation of the ASSUMED contract of Move::to_algebraic: every move record (64 x 64 x 6 x 5)
+fn to_algebraic_all(_args: &[String]) -> i32 {
+    let mut rep = Report::new("to-algebraic", "all 64 x 64 origin/destination pairs x 6 piece types x 5 move types = 122880 move records (complete)");
+    let pcs = [Piece::Pawn, Piece::Knight, Piece::Bishop, Piece::Rook, Piece::Queen, Piece::King];
+    let mts = [MoveType::Quiet, MoveType::Capture, MoveType::EnPassant, MoveType::Castle, MoveType::Promotion];
+    let sqn = |s: u8| format!("{}{}", (b'a' + s % 8) as char, (b'1' + s / 8) as char);
+    for from in 0u8..64 { for to in 0u8..64 { for pc in pcs { for mt in mts {
+        let m = Move::new(from, to, pc, mt);
+        let suffix = if mt == MoveType::Promotion { match pc { Piece::Bishop => "b", Piece::Knight => "n", Piece::Rook => "r", Piece::Queen => "q", _ => "" } } else { "" };
+        let want = format!("{}{}{}", sqn(from), sqn(to), suffix);
+        rep.evals += 1;
+        if m.to_algebraic() != want {
+            rep.violation = Some(format!("{{\"input\": {{\"from\": {}, \"to\": {}, \"piece\": {}, \"type\": {}}}, \"real\": {}, \"expected\": {}}}", from, to, pc as usize, mt as usize, jstr(&m.to_algebraic()), jstr(&want)));
+            return rep.finish();
+        }
+    } } } }
+    rep.distinct = rep.evals;
     rep.finish()
 }
